@@ -295,6 +295,8 @@ def check_property(prop, tier="quick", seed=0, only=None, verbose=False):
         br.update(function=b.get("function"), label="bounded (NOT proved)", secs=round(time.time() - t0, 2))
         bounded.append(br)
         for v in br.pop("violations", []):
+            if v.get("clause", "")[:3] in ("C03", "C16") and v["clause"][:3] != prop:
+                continue  # a clause of the other property sharing this stand-in
             fd = next((f for f in findings if finding_matches(f, prop, b["fn"], v.get("clause"), v.get("shape", {}), v.get("input"))), None)
             if fd is not None:
                 known_hits.append(dict(finding=fd["id"], contract=b["fn"], clause=v.get("clause"), shape=v.get("shape", {}), what=fd["what"]))
@@ -302,7 +304,8 @@ def check_property(prop, tier="quick", seed=0, only=None, verbose=False):
             fname = f"replays/{prop}-{b['fn']}-{_slug(v.get('clause', 'bounded'))}.json"
             with open(os.path.join(VERIF, fname), "w") as f:
                 json.dump(dict(property=prop, bounded=True, **v), f, indent=1, default=str)
-            violations.append((fname, False, b["fn"], v.get("clause")))
+            if not any(x[0] == fname for x in violations):
+                violations.append((fname, False, b["fn"], v.get("clause")))
 
     # ------------------------------------------------------------ evidence
     wall = time.time() - t_start
